@@ -8,6 +8,8 @@ package zzsimhook
 import (
 	"context"
 	crand "crypto/rand"
+	"errors"
+	"io"
 	"io/fs"
 	"os"
 	"runtime"
@@ -79,7 +81,22 @@ type File struct {
 	Impl FileImpl
 }
 
-func (f *File) Read(p []byte) (int, error)  { return f.Impl.Read(p) }
+func (f *File) Read(p []byte) (int, error) { return f.Impl.Read(p) }
+
+// ReadAt / WriteAt: positional I/O, where the implementation offers it (the real file and the
+// simulated one do).
+func (f *File) ReadAt(p []byte, off int64) (int, error) {
+	if ra, ok := f.Impl.(io.ReaderAt); ok {
+		return ra.ReadAt(p, off)
+	}
+	return 0, errors.New("zzsimhook: file implementation without ReadAt")
+}
+func (f *File) WriteAt(p []byte, off int64) (int, error) {
+	if wa, ok := f.Impl.(io.WriterAt); ok {
+		return wa.WriteAt(p, off)
+	}
+	return 0, errors.New("zzsimhook: file implementation without WriteAt")
+}
 func (f *File) Write(p []byte) (int, error) { return f.Impl.Write(p) }
 func (f *File) WriteString(s string) (int, error) {
 	return f.Impl.Write([]byte(s))
